@@ -30,7 +30,8 @@ CONSTANTS Conns, MaxSteps, Protos, LaterTracks, MethodSetM,
                        \* configuration that Level A must REFUSE (the session outlives its last
                        \* connection), so that the P2 clause is known not to be vacuous.
 
-VARIABLES st,        \* "none" | "prePlay" | "play" | "ended"
+VARIABLES st,        \* "none" | "prePlay" | "play" | "preRecord" | "record" | "ended"
+          idKnown,   \* the peers have seen the session's id (ANNOUNCE and error answers do not carry it)
           proto,     \* "none" | "udp" | "tcp"
           setupped,  \* tracks set up
           tcpConn,   \* ss.tcpConn (0: nil)
@@ -40,18 +41,20 @@ VARIABLES st,        \* "none" | "prePlay" | "play" | "ended"
           n, hist, beh,
           todo       \* notifications produced by the last step, not yet seen by Level A
 
-bvars == <<st, proto, setupped, tcpConn, members, linked, open, n, hist, beh, todo>>
+bvars == <<st, idKnown, proto, setupped, tcpConn, members, linked, open, n, hist, beh, todo>>
 
-AllMethodsM == {"SETUP", "PLAY", "PAUSE", "OPTIONS", "TEARDOWN", "RECORD"}
+AllMethodsM == {"SETUP", "PLAY", "PAUSE", "OPTIONS", "TEARDOWN", "RECORD", "ANNOUNCE"}
+PlayMethodsM == {"SETUP", "PLAY", "PAUSE", "OPTIONS", "TEARDOWN", "RECORD"}
+RecTracks == {0}        \* the announced description has one media
 ProtosUT == {"udp", "tcp"}
 
 Ev(e, c) == [e |-> e, c |-> c]
-ReqEv(c, m, status, st1) == [e |-> "mreq", c |-> c, m |-> m, status |-> status, st1 |-> st1]
+ReqEv(c, m, status, st1, u) == [e |-> "mreq", c |-> c, m |-> m, status |-> status, st1 |-> st1, udp |-> u]
 
 \* Level A step for one queued notification
 ADo(ev) ==
-  CASE ev.e = "mreq_begin" -> MReqBegin(ev.c, ev.m, ev.st0)
-    [] ev.e = "mreq"       -> MReqEnd(ev.c, ev.m, 1, TRUE, ev.status, ev.st1, proto = "udp")
+  CASE ev.e = "mreq_begin" -> MReqBegin(ev.c, ev.m, ev.st0, ev.sid)
+    [] ev.e = "mreq"       -> MReqEnd(ev.c, ev.m, 1, TRUE, ev.status, ev.st1, ev.udp)
     [] ev.e = "sess_open"  -> MSessOpen
     [] ev.e = "sess_close" -> MSessClose
     [] ev.e = "peer_close" -> MPeerClose(ev.c)
@@ -61,11 +64,11 @@ ADo(ev) ==
 
 Init ==
   /\ MInit
-  /\ st = "none" /\ proto = "none" /\ setupped = {} /\ tcpConn = 0 /\ members = {} /\ linked = {}
+  /\ st = "none" /\ idKnown = FALSE /\ proto = "none" /\ setupped = {} /\ tcpConn = 0 /\ members = {} /\ linked = {}
   /\ open = Conns /\ n = 0 /\ hist = <<>> /\ beh = "" /\ todo = <<>>
 
 \* the session loses a connection: it ends when none is left, unless it streams over UDP
-EndsWhenEmpty(mem) == mem = {} /\ st \notin {"none", "ended"} /\ (st # "play" \/ proto = "tcp")
+EndsWhenEmpty(mem) == mem = {} /\ st \notin {"none", "ended"} /\ (st \notin {"play", "record"} \/ proto = "tcp")
 
 SeqOf(S) == CHOOSE s \in [1..Cardinality(S) -> S] : \A i, j \in 1..Cardinality(S) : i # j => s[i] # s[j]
 CloseEvs(S) == [i \in 1..Cardinality(S) |-> Ev("conn_close", SeqOf(S)[i])]
@@ -78,13 +81,19 @@ Request(c, m, trk, pr, ord) ==
   LET s0 == st
       other == tcpConn # 0 /\ c # tcpConn                 \* ErrServerSessionLinkedToOtherConn
       ok == /\ ~other
-            /\ CASE m = "SETUP"  -> s0 \in {"none", "prePlay"} /\ trk \notin setupped
-                 [] m = "PLAY"   -> s0 \in {"prePlay", "play"}
-                 [] m = "RECORD" -> FALSE
+            /\ CASE m = "SETUP"    -> s0 \in {"none", "prePlay", "preRecord"} /\ trk \notin setupped
+                 [] m = "ANNOUNCE" -> s0 = "none"
+                 [] m = "PLAY"     -> s0 \in {"prePlay", "play"}
+                 [] m = "RECORD"   -> s0 = "preRecord" /\ setupped = RecTracks
                  [] OTHER -> TRUE
       st1 == IF ~ok THEN s0
-             ELSE CASE m = "SETUP" -> "prePlay" [] m = "PLAY" -> "play" [] m = "PAUSE" -> "prePlay"
+             ELSE CASE m = "SETUP" -> (IF s0 = "preRecord" THEN "preRecord" ELSE "prePlay")
+                    [] m = "ANNOUNCE" -> "preRecord"
+                    [] m = "PLAY" -> "play"
+                    [] m = "RECORD" -> "record"
+                    [] m = "PAUSE" -> (IF s0 = "play" THEN "prePlay" ELSE IF s0 = "record" THEN "preRecord" ELSE s0)
                     [] OTHER -> s0
+      mode == IF s0 \in {"preRecord", "record"} THEN "record" ELSE "play"
       status == IF ok THEN 200 ELSE 400
       mem1 == members \cup {c}
       tear == ok /\ m = "TEARDOWN"
@@ -92,24 +101,30 @@ Request(c, m, trk, pr, ord) ==
       mem2 == IF ok \/ ~pairs THEN mem1 ELSE mem1 \ {c}
       ends == tear \/ (~ok /\ EndsWhenEmpty(mem2))
       kicked == IF tear THEN (mem1 \ {c}) \cap open ELSE {}   \* closed by the ending session
-      begin == <<[e |-> "mreq_begin", c |-> c, m |-> m, st0 |-> IF s0 = "none" THEN "none" ELSE s0]>>
+      begin == <<[e |-> "mreq_begin", c |-> c, m |-> m, st0 |-> s0, sid |-> idKnown]>>
       opening == IF s0 = "none" THEN <<Ev("sess_open", 0)>> ELSE <<>>
-      answer == <<ReqEv(c, m, status, IF st1 = "none" THEN "none" ELSE st1)>>
+      answer == <<ReqEv(c, m, status, st1, pr = "udp")>>
       closing == (IF ok THEN <<>> ELSE <<Ev("conn_close", c)>>) \o CloseEvs(kicked)
                  \o (IF ends THEN <<Ev("sess_close", 0)>> ELSE <<>>)
       settle == IF closing = <<>> THEN <<>> ELSE <<Ev("settle", 0)>>
-      rec == [k |-> "req", c |-> c, m |-> m, track |-> trk, proto |-> pr, ok |-> ok, st1 |-> st1, ends |-> ends]
+      rec == [k |-> "req", c |-> c, m |-> m, track |-> trk, proto |-> pr, mode |-> mode, ok |-> ok,
+              st1 |-> st1, ends |-> ends]
       stN == IF ends THEN "ended" ELSE st1
       openN == IF ok THEN open \ kicked ELSE open \ {c}
   IN
   /\ todo = <<>> /\ st # "ended" /\ c \in open /\ n < MaxSteps
-  /\ (st = "none") => (c = 1 /\ m = "SETUP" /\ trk = 0)
-  /\ (st # "none") => (pr = proto /\ (m = "SETUP" => trk \in LaterTracks))
-  /\ (m # "SETUP") => trk = 0
+  /\ (st = "none") => (c = 1 /\ m \in {"SETUP", "ANNOUNCE"} /\ trk = 0)
+  /\ (st # "none") => /\ (proto # "none" => pr = proto)
+                      /\ (c \notin linked => idKnown)         \* a visitor needs the id
+                      /\ (m \notin {"SETUP", "ANNOUNCE"} => idKnown)   \* ... and so do these methods
+                      /\ (m = "SETUP" /\ mode = "play" => trk \in LaterTracks)
+                      /\ (m = "SETUP" /\ mode = "record" => trk = 0)
+  /\ (m # "SETUP") => (trk = 0 /\ pr = (IF proto = "none" THEN "tcp" ELSE proto))
   /\ st' = stN
-  /\ proto' = IF st = "none" THEN pr ELSE proto
+  /\ proto' = IF ok /\ m = "SETUP" /\ proto = "none" THEN pr ELSE proto
+  /\ idKnown' = (idKnown \/ (ok /\ m \notin {"ANNOUNCE", "TEARDOWN"}))
   /\ setupped' = IF ok /\ m = "SETUP" THEN setupped \cup {trk} ELSE setupped
-  /\ tcpConn' = IF ok /\ m = "PLAY" /\ proto = "tcp" THEN c
+  /\ tcpConn' = IF ok /\ m \in {"PLAY", "RECORD"} /\ proto = "tcp" THEN c
                 ELSE IF ok /\ m = "PAUSE" THEN 0 ELSE tcpConn
   /\ members' = IF ends THEN {} ELSE mem2
   /\ linked' = IF tear THEN linked \ {c} ELSE IF pairs THEN linked \cup {c} ELSE linked
@@ -125,7 +140,7 @@ Request(c, m, trk, pr, ord) ==
 PeerClose(c, ord) ==
   LET mem2 == IF c \in linked THEN members \ {c} ELSE members
       ends == c \in linked /\ EndsWhenEmpty(mem2)
-      rec == [k |-> "close", c |-> c, m |-> "-", track |-> 0, proto |-> proto, ok |-> TRUE,
+      rec == [k |-> "close", c |-> c, m |-> "-", track |-> 0, proto |-> proto, mode |-> "-", ok |-> TRUE,
               st1 |-> st, ends |-> ends]
       stN == IF ends THEN "ended" ELSE st
   IN
@@ -140,13 +155,13 @@ PeerClose(c, ord) ==
              (IF ends /\ ord = 2 THEN <<Ev("sess_close", 0), Ev("conn_close", c)>>
               ELSE <<Ev("conn_close", c)>> \o (IF ends THEN <<Ev("sess_close", 0)>> ELSE <<>>))
              \o <<Ev("settle", 0)>>
-  /\ UNCHANGED <<proto, setupped, tcpConn, linked, mvars>>
+  /\ UNCHANGED <<idKnown, proto, setupped, tcpConn, linked, mvars>>
 
 Drain ==
   /\ todo # <<>>
   /\ ADo(Head(todo))
   /\ todo' = Tail(todo)
-  /\ UNCHANGED <<st, proto, setupped, tcpConn, members, linked, open, n, hist, beh>>
+  /\ UNCHANGED <<st, idKnown, proto, setupped, tcpConn, members, linked, open, n, hist, beh>>
 
 Next ==
   \/ \E c \in Conns, m \in MethodSetM, trk \in {0} \cup LaterTracks, pr \in Protos, ord \in {1, 2} :
